@@ -79,9 +79,13 @@ def check(tier, seed, replay=None):
     table = X.Table()
     import exprparse as EP
     items = []        # (ast, input ast, vars, macros, text)
+    bags = []         # (text, input list): the result must be a rearrangement of the input
     if replay:
         rep = json.load(open(replay))["recipe"]
-        items = [(rep["ast"], PL.ast_of_enc(rep["input"]), [], [], rep["text"])]
+        if "bag" in rep:
+            bags = [(rep["bag"], PL.ast_of_enc(rep["input"]))]
+        else:
+            items = [(rep["ast"], PL.ast_of_enc(rep["input"]), [], [], rep["text"])]
     else:
         r = tlc("MC_Expr", "MC_Expr.cfg", workers=8, timeout=1800)
         tlc_ok(r, "MC_Expr")
@@ -112,15 +116,33 @@ def check(tier, seed, replay=None):
             e = X.gen_typed(rnd, table, rnd.choice(["num", "str", "bool", "list:num", "list:str", "obj", "any"]), rnd.choice([1, 2, 3, 4, 5]), X.Env())
             e = X.decorate(e, rnd, table)
             items.append((X.strip(e), inp, [], [], X.text(e)))
+        # (iv) boundary integers ("boundary integers" of the quantifier) through the functions that are documented to hand a value on unchanged,
+        #      and lists of distinct neighbouring integers through the sorts: nothing may be lost or altered
+        import c19 as C19
+        for n in (2**53 + 1, 2**64 - 1, -(2**63), -(2**63) + 1, 2**63 + 1, 12345678901234567891):
+            for tmpl in C19.NONARITH:
+                txt = tmpl % ((str(n),) * tmpl.count("%s"))
+                items.append((X.strip(EP.parse(txt, table)), ("obj", [(X.cps("n"), ("num", str(n)))]), [], [], txt))
+        for a, b in ((2**53 + 1, 2**53), (2**64 - 1, 2**64 - 2), (-(2**63), -(2**63) + 1), (2**63 + 1, 2**63), (9007199254740993, 9007199254740995)):
+            for lst in ([a, b], [b, a], [a, 1, b], [b, "x", a, None]):
+                for f in ("sort_unique", "sort", "order_unique"):
+                    bags.append(("(%s .)" % f, ("arr", [("num", str(x)) if isinstance(x, int) else ("str", X.cps(x)) if isinstance(x, str) else ("null",) for x in lst])))
     cases = []
     for i, (ast, inp, vs, ms, txt) in enumerate(items):
         c = EL.select_case(txt, inp, vs, ms)
         c["id"] = i
         cases.append(c)
+    for j, (txt, inp) in enumerate(bags):
+        c = EL.select_case(txt, inp)
+        c["id"] = len(items) + j
+        cases.append(c)
     obs = run_cases(jvh, cases)
     recs = []
     for i, (ast, inp, vs, ms, txt) in enumerate(items):
         recs.append({"case": i, "kind": "eval", "ast": ast, "ctx": EL.ctx_of(inp, vs, ms), "res": EL.observed_value(obs[i])})
+    for j, (txt, inp) in enumerate(bags):
+        val = EL.observed_value(obs[len(items) + j])
+        recs.append({"case": len(items) + j, "kind": "bag", "inp": enc(inp)["a"], "out": val if val.get("t") == "arr" else {"t": "arr", "a": []}})
     flags, res = run_trace_spec("Trace_Expr", recs, "c04", nproc=4 if quick else 14)
     skipped = {c for k, c, w in flags if k == "SKIP"}
     chk.traces = len(recs) - len(skipped)
@@ -134,6 +156,14 @@ def check(tier, seed, replay=None):
                     "stdout": bytes.fromhex(obs[i]["out"]).decode("utf-8", "replace")[:200], "compared": i not in skipped})
     for kind, case, what in flags:
         if kind == "SKIP":
+            continue
+        if case >= len(items):
+            txt, inp = bags[case - len(items)]
+            rep = {"recipe": {"bag": txt, "input": enc(inp)}, "expression": txt, "input": G.canonical(inp).decode("utf-8"),
+                   "observed": bytes.fromhex(obs[case]["out"]).decode("utf-8", "replace")[:500], "flag": what}
+            if kind != "MISMATCH":
+                raise ToolError("%s flag from Trace_Expr on %s: %s" % (kind, txt, what))
+            chk.violation("%s on %s gives %s; %s" % (txt, rep["input"][:150], rep["observed"].strip()[:200], what[:300]), rep)
             continue
         ast, inp, vs, ms, txt = items[case]
         rep = {"recipe": {"ast": ast, "input": enc(inp), "text": txt}, "expression": txt, "input": G.canonical(inp).decode("utf-8"),
